@@ -160,9 +160,14 @@ func kindOf(name string) string {
 // genPlain draws the plaintext. If rowLen > 0 the result is a whole number of
 // rows of that length.
 func genPlain(t *rapid.T, rowLen int) ([]byte, string) {
-	class := rapid.SampledFrom([]string{"random", "random", "zeros", "ff", "periodic", "text", "ramp", "big"}).Draw(t, "plainClass")
+	class := rapid.SampledFrom([]string{"random", "random", "zeros", "ff", "periodic", "text", "ramp", "big", "longrun"}).Draw(t, "plainClass")
 	var n int
 	switch class {
+	case "longrun":
+		// long and extremely compressible (an empty image, a blank form): expansion ratios of 1000:1 and more;
+		// 260 or more zero bytes in a row for the 'z' groups of ASCII85
+		n = rapid.SampledFrom([]int{260, 1024, 16384, 65536, 262144}).Draw(t, "runLen")
+		class = rapid.SampledFrom([]string{"zeros", "ff", "periodic"}).Draw(t, "runClass")
 	case "big":
 		n = rapid.IntRange(4096, 65536).Draw(t, "plainLen")
 	default:
